@@ -7,25 +7,24 @@ package main
 import (
 	"encoding/binary"
 	"encoding/json"
+	"fmt"
 	"go/ast"
 	"go/parser"
-	"fmt"
 	"go/token"
+	"math/big"
 	"strconv"
 	"strings"
-	"math/big"
 
+	zcore "github.com/Zilliqa/gozilliqa-sdk/core"
 	"github.com/btcsuite/btcd/chaincfg"
 	"github.com/btcsuite/btcd/wire"
-	zcore "github.com/Zilliqa/gozilliqa-sdk/core"
-	zlcore "github.com/renlulu/gozilliqa-sdklegacy/core"
 	ecommon "github.com/ethereum/go-ethereum/common"
 	etypes "github.com/ethereum/go-ethereum/core/types"
 	"github.com/ethereum/go-ethereum/rlp"
 	neoblock "github.com/joeqian10/neo-gogogo/block"
 	neotx "github.com/joeqian10/neo-gogogo/tx"
-	neo3block "github.com/joeqian10/neo3-gogogo/block"
 	neo3legacyblock "github.com/joeqian10/neo3-gogogo-legacy/block"
+	neo3block "github.com/joeqian10/neo3-gogogo/block"
 	ocommon "github.com/ontio/ontology/common"
 	otypes "github.com/ontio/ontology/core/types"
 	polycommon "github.com/polynetwork/poly/common"
@@ -47,9 +46,10 @@ import (
 	"github.com/polynetwork/poly/native/service/header_sync/zilliqa"
 	"github.com/polynetwork/poly/native/service/header_sync/zilliqalegacy"
 	"github.com/polynetwork/poly/native/service/utils"
-	"verif.local/engine/lib/src"
+	zlcore "github.com/renlulu/gozilliqa-sdklegacy/core"
 	stc "github.com/starcoinorg/starcoin-go/client"
 	tmtypes "github.com/tendermint/tendermint/types"
+	"verif.local/engine/lib/src"
 )
 
 type routerSpec struct {
